@@ -102,6 +102,11 @@ package dns
 //@   assert at "wire := make([]byte, Len(r1)+1)" kept: h.Name == cname && h.Ttl == s.OrigTtl
 //@   callsite "PackRR" plain: same(arg0, r1) && arg2 == 0 && arg3 == nil && !arg4
 //@   callsite "Join" wild: len(labels) > s.Labels
+// RFC 4034 6.3: every record's canonical form takes part in the sort; duplicates are dropped after sorting, by
+// comparing each form with its predecessor in sorted order
+//@   callsite "Sort" whole: len(wires) == len(rrset)
+//@   stored at "wires[i] = wire" same(value, wire) && len(wire) == callres("PackRR", 0)
+//@   callsite "Equal" neighbours: called("Sort") && rangeindex >= 0 && same(arg0, wires[rangeindex+1]) && same(arg1, wires[rangeindex])
 
 // ---- hash ropes (C17): what is fed to the digest, in which order, how many times ----
 // RFC 5155 5: IH(salt, x, 0) = H(x || salt), IH(salt, x, k) = H(IH(salt, x, k-1) || salt); x is the owner name
@@ -143,3 +148,60 @@ package dns
 //@   assert at "modlen := len(keybuf) - modoff" modlen: modoff == keyoff + explen && modlen == len(keybuf) - modoff
 //@   callsite "SetBytes" modulus: sliceoff(arg1) == sliceoff(keybuf) + modoff && len(arg1) == len(keybuf) - modoff && ref(arg1) == ref(keybuf)
 //@   exit exponent: ret0 != nil ==> ret0.E == expo
+
+// ECDSA (RFC 6605 4): Q = x | y, 32+32 octets for P-256, 48+48 for P-384; Ed25519 (RFC 8080 3): the 32-octet key.
+// A key is refused only when its length is not the one its algorithm prescribes.
+//@ func (*DNSKEY).publicKeyECDSA [C17]
+//@   opt no-safety
+//@   requires k != nil
+//@   assert at "return nil@2" p256len: k.Algorithm == 13 && len(keybuf) != 64
+//@   assert at "return nil@3" p384len: k.Algorithm == 14 && len(keybuf) != 96
+//@   callsite "SetBytes" halves: ref(arg1) == ref(keybuf) && ((sliceoff(arg1) == sliceoff(keybuf) && len(arg1) == len(keybuf) / 2) || (sliceoff(arg1) == sliceoff(keybuf) + len(keybuf) / 2 && len(arg1) == len(keybuf) - len(keybuf) / 2))
+//@   stored at "pubkey.X = new(big.Int).SetBytes(keybuf[:len(keybuf)/2])" xhalf: sliceoff(callarg("SetBytes", 1)) == sliceoff(keybuf)
+//@   stored at "pubkey.Y = new(big.Int).SetBytes(keybuf[len(keybuf)/2:])" yhalf: sliceoff(callarg("SetBytes", 1)) == sliceoff(keybuf) + len(keybuf) / 2
+//@ func (*DNSKEY).publicKeyED25519 [C17]
+//@   opt no-safety
+//@   requires k != nil
+//@   assert at "return nil@2" keylen: len(keybuf) != 32
+//@   exit key: ret0 != nil ==> same(ret0, keybuf) && len(ret0) == 32
+
+// ---- key generation and public-key export (RFC 3110 2, RFC 6605 4, RFC 8080 3) ----
+// sizes: RSA 512..4096 bits (1024..4096 for RSASHA512), P-256: 256, P-384: 384, Ed25519: 256; the public key of the
+// key pair just generated is the one exported
+//@ func (*DNSKEY).Generate [C17]
+//@   opt no-safety
+//@   requires k != nil
+//@   assert at "return nil, ErrKeySize@1" rsa: (k.Algorithm == 5 || k.Algorithm == 8 || k.Algorithm == 7) && (bits < 512 || bits > 4096)
+//@   assert at "return nil, ErrKeySize@2" rsa512: k.Algorithm == 10 && (bits < 1024 || bits > 4096)
+//@   assert at "return nil, ErrKeySize@3" p256: k.Algorithm == 13 && bits != 256
+//@   assert at "return nil, ErrKeySize@4" p384: k.Algorithm == 14 && bits != 384
+//@   assert at "return nil, ErrKeySize@5" ed: k.Algorithm == 15 && bits != 256
+//@   callsite "crypto/rsa.GenerateKey" bits: arg1 == bits
+//@   callsite "setPublicKeyRSA" pub: arg0 == k && arg1 == priv.PublicKey.E && arg2 == priv.PublicKey.N
+//@   callsite "setPublicKeyECDSA" pub: arg0 == k && arg1 == priv.PublicKey.X && arg2 == priv.PublicKey.Y
+//@   callsite "setPublicKeyED25519" pub: arg0 == k && same(arg1, pub)
+//@   callsite "P256" alg: k.Algorithm == 13
+//@   callsite "P384" alg: k.Algorithm == 14
+// exponent: one length octet (or 0 and a 16-bit length) then the exponent octets
+//@ func exponentToBuf [C17]
+//@   exit short: len(i) < 256 ==> len(ret0) == 1 + len(i) && ret0[0] == len(i)
+//@   exit long: len(i) >= 256 && len(i) < 65536 ==> len(ret0) == 3 + len(i) && ret0[0] == 0 && ret0[1] == len(i) / 256 && ret0[2] == len(i) % 256
+//@   exit digits: forall j in 0..len(i) :: ret0[len(ret0) - len(i) + j] == i[j]
+//@ func curveToBuf [C17]
+//@   requires intlen >= 0
+//@   callsite "intToBytes" width: arg1 == intlen && (arg0 == _X || arg0 == _Y)
+//@   ensures len(ret0) >= 2 * intlen
+//@ func (*DNSKEY).setPublicKeyRSA [C17]
+//@   opt no-safety
+//@   requires k != nil
+//@   callsite "exponentToBuf" e: arg0 == _E
+//@   callsite "toBase64" both: len(arg0) == len(callres("exponentToBuf")) + len(callres("Bytes")) && callarg("Bytes", 0) == _N
+//@ func (*DNSKEY).setPublicKeyECDSA [C17]
+//@   opt no-safety
+//@   requires k != nil
+//@   callsite "curveToBuf" width: arg0 == _X && arg1 == _Y && (k.Algorithm == 13 ==> arg2 == 32) && (k.Algorithm == 14 ==> arg2 == 48)
+//@   callsite "toBase64" xy: same(arg0, callres("curveToBuf"))
+//@ func (*DNSKEY).setPublicKeyED25519 [C17]
+//@   opt no-safety
+//@   requires k != nil
+//@   callsite "toBase64" key: same(arg0, _K)
